@@ -7,6 +7,7 @@ import (
 	"net/http/httptest"
 	"strconv"
 	"strings"
+	"sync"
 	"syscall"
 	"time"
 
@@ -191,6 +192,7 @@ func suiteUpsel(r *rng, n int) {
 		upstream.Reset(nil)
 		if i == 0 {
 			upselAllDownHistory()
+			upselPipelineHistories()
 		}
 		for _, u := range servers {
 			u.stop()
@@ -247,4 +249,77 @@ func upselAllDownHistory() {
 	out = append(out, itoa(int64(r.code)), itoa(r.ms))
 	emit(append([]string{"upsel", "alldown"}, out...)...)
 	stat("alldown-histories")
+}
+
+// directed histories through the whole request path with the REAL proxy:
+//
+//	rrpipe   - round robin over 2 and over 4 healthy primaries, twelve first-time GETs of distinct URLs each: the
+//	           per-server counts differ by at most one
+//	degraded - health-check path "/" and a server that accepts connections but answers 500 to everything: it fails
+//	           the HTTP check, so no client request is forwarded to it and the client gets a 5xx from pike
+func upselPipelineHistories() {
+	for _, ns := range []int{2, 4} {
+		var mu sync.Mutex
+		counts := make([]int, ns)
+		var srvs []*httptest.Server
+		var cfgs []config.UpstreamServerConfig
+		for j := 0; j < ns; j++ {
+			j := j
+			s := httptest.NewServer(http.HandlerFunc(func(w http.ResponseWriter, r *http.Request) {
+				if strings.HasPrefix(r.URL.Path, "/rr/") {
+					mu.Lock()
+					counts[j]++
+					mu.Unlock()
+				}
+				w.Header().Set("Cache-Control", "max-age=60")
+				fmt.Fprintf(w, "srv%d", j)
+			}))
+			srvs = append(srvs, s)
+			cfgs = append(cfgs, config.UpstreamServerConfig{Addr: s.URL})
+		}
+		ucfg := []config.UpstreamConfig{{Name: "u1", Policy: "roundRobin", Servers: cfgs}}
+		p := newPipeline(100, "1s", false, serverOption(), nil, ucfg)
+		upstream.Reset(nil)
+		upstream.Reset(ucfg)
+		for k := 0; k < 12; k++ {
+			p.do("GET", "x.test", fmt.Sprintf("/rr/%d-%d", ns, k), nil, nil)
+		}
+		out := []string{"upsel", "rrpipe"}
+		mu.Lock()
+		for _, c := range counts {
+			out = append(out, itoa(int64(c)))
+		}
+		mu.Unlock()
+		emit(out...)
+		upstream.Reset(nil)
+		for _, s := range srvs {
+			s.Close()
+		}
+	}
+	var mu sync.Mutex
+	forwarded := 0
+	bad := httptest.NewServer(http.HandlerFunc(func(w http.ResponseWriter, r *http.Request) {
+		if r.URL.Path != "/" {
+			mu.Lock()
+			forwarded++
+			mu.Unlock()
+		}
+		w.WriteHeader(500)
+	}))
+	defer bad.Close()
+	ucfg := []config.UpstreamConfig{{Name: "u1", HealthCheck: "/", Servers: []config.UpstreamServerConfig{{Addr: bad.URL}}}}
+	p := newPipeline(100, "1s", false, serverOption(), nil, ucfg)
+	upstream.Reset(nil)
+	upstream.Reset(ucfg)
+	code := 0
+	for k := 0; k < 3; k++ {
+		w := p.do("GET", "x.test", fmt.Sprintf("/page/%d", k), nil, nil)
+		code = w.Code
+	}
+	mu.Lock()
+	f := forwarded
+	mu.Unlock()
+	emit("upsel", "degraded", itoa(int64(code)), itoa(int64(f)))
+	upstream.Reset(nil)
+	stat("pipeline-histories")
 }
